@@ -1,7 +1,7 @@
 """C17 (partial): R-IDX, R-CAP, R-EOF, R-REC, R-DIV, R-NULL, T-TBL, T-DISP over everything reachable from naken_util."""
 from nk import report
 from nk.interval import Analyzer
-from rules import strs, prog as rprog, wrap, idx, term, div, tbl, null, disp, lane
+from rules import strs, prog as rprog, wrap, idx, term, div, tbl, null, disp, lane, fileloop
 from . import common
 
 EXPLANATION = (
@@ -11,7 +11,7 @@ EXPLANATION = (
     'input), R-REC, R-DIV, R-NULL, T-TBL (table sentinels), T-DISP (every accepted command / detected file type is '
     'dispatched). R-PROG: every range loop of the range printers and the page walk of UtilContext::disasm advance on every path. '
     'WRAP-LOOP: a 32-bit address counter compared with an inclusive upper bound cannot wrap (the 56 range printers are known findings). R-STR: as in C16, over the disassemblers and file readers (about 200 of 600 copies are proven, the rest not decided). Not decided: file-supplied counts and offsets used as pointer offsets into the file image '
-    '(R-TAINT not armed), heap use. R-WRAP: the page-membership tests of the image (which every loader writes through) are computed in 64 bits, so a store at 0xffff0000 and above finds its page instead of appending pages until memory runs out.')
+    '(R-TAINT not armed), heap use. R-WRAP: the page-membership tests of the image (which every loader writes through) are computed in 64 bits, so a store at 0xffff0000 and above finds its page instead of appending pages until memory runs out. FILE-LOOP: every loop of a file reader whose trip count is a 32/64-bit value taken from the file is preceded by a relational test of that value with an arm that leaves, or leaves at end of file itself.')
 
 
 def run(tier, t0):
@@ -29,7 +29,7 @@ def run(tier, t0):
                rprog.run(prog, cg),
                strs.strs(prog, cg, scope, 100), strs.str_loops(prog, scope, an, 20),
                wrap.wrap_loops(prog, lambda f: f.file.startswith(('disasm/', 'core/UtilContext', 'main/naken_util', 'fileio/')), an, 40, strict_fns=common.range_printers()),
-               lane.wrap_pages(prog, 2)]
+               lane.wrap_pages(prog, 2), fileloop.file_loops(prog)]
     return report.finish('C17', tier, results, EXPLANATION,
                          ['the invariants listed for not-decided subscripts were read from the code and replayed under ASan '
                           'during triage'], common.TRUSTED, t0)
